@@ -348,6 +348,7 @@ func main() {
 		}
 		cfg.FPTimeoutMs = h.FPTimeoutMs
 		cfg.ForkHardFP = h.ForkHardFP
+		cfg.SynctestEpoch = h.Synctest
 		if *tier == "thorough" && cfg.Solver == "z3" {
 			cfg.CrossCheck = "z3-new"
 		}
